@@ -6,13 +6,17 @@
 use crate::model::{encode, Bits, Code, End};
 use crate::report::Outcome;
 
+fn repo_dir() -> String {
+    std::env::var("DSIV_REPO_DIR").unwrap_or("/repo".into())
+}
+
 fn harness_dir() -> String {
     std::env::var("DSIV_HARNESS_DIR").unwrap_or("/verif/harness".into())
 }
 
 pub fn validate_reference(out: &mut Outcome) -> u64 {
     let n = "4096";
-    let o = std::process::Command::new("python3").arg(format!("{}/modelval.py", harness_dir())).arg("/repo").arg(n).output();
+    let o = std::process::Command::new("python3").arg(format!("{}/modelval.py", harness_dir())).arg(repo_dir()).arg(n).output();
     let o = match o {
         Ok(o) if o.status.success() => o,
         Ok(o) => {
@@ -81,7 +85,7 @@ pub fn validate_reference(out: &mut Outcome) -> u64 {
         count += 1;
     }
     // module-doc examples of omega and minimal binary (src/codes/omega.rs, src/codes/mod.rs)
-    let omega_src = std::fs::read_to_string("/repo/src/codes/omega.rs").unwrap_or_default();
+    let omega_src = std::fs::read_to_string(format!("{}/src/codes/omega.rs", repo_dir())).unwrap_or_default();
     if omega_src.contains("formed by the blocks `11`, `1011`, and `0`") {
         // (the concatenated string printed in that sentence, `1110010`, has a typo; the blocks are authoritative
         // and agree with the unit-test vectors in the same file)
@@ -93,7 +97,7 @@ pub fn validate_reference(out: &mut Outcome) -> u64 {
         assert_eq!(le, "0011111");
         count += 1;
     }
-    let mod_src = std::fs::read_to_string("/repo/src/codes/mod.rs").unwrap_or_default();
+    let mod_src = std::fs::read_to_string(format!("{}/src/codes/mod.rs", repo_dir())).unwrap_or_default();
     if mod_src.contains("`00`, `010`, `011`,") {
         let want = ["00", "010", "011", "100", "101", "110", "111"];
         for (x, w) in want.iter().enumerate() {
